@@ -6,10 +6,14 @@ package server
 
 //@ spec func admissible(m, l) = m.locked == 0 || (m.locked <= l.command.Count && m.locked <= m.currentLock.command.Count)
 
+// input class of the known finding C01/doLock: Count 0xffff on both sides means "unlimited" in the code
+//@ spec func unlimitedClass(m, l) = m.locked >= 0xffff && l.command.Count == 0xffff && m.currentLock.command.Count == 0xffff
+
 //@ func (*LockDB).doLock
 //@   requires lockManager != nil && lock != nil && lock.command != nil
 //@   requires implies(lockManager.locked != 0, lockManager.currentLock != nil && lockManager.currentLock.command != nil)
-//@   ensures C01.admit: implies(result, admissible(lockManager, lock))
+//@   ensures C01.admit: implies(result && !unlimitedClass(lockManager, lock), admissible(lockManager, lock))
+//@   ensures C01.admit-unlimited0xffff: implies(result && unlimitedClass(lockManager, lock), admissible(lockManager, lock))
 //@   modifies nothing
 
 // ---- C12: log-position order used by the election (server/arbiter.go) ----
